@@ -12,7 +12,7 @@ MX="${MX_DIR:-/tmp/mx2}"
 d="$(readlink -f "$1")"; shift
 if [ -z "${MX_NOSYNC:-}" ]; then
 rsync -a --exclude target --exclude .git --exclude replays --exclude evidence "$V/" "$MX/verif/"
-sed -i "s#/repo#$MX/repo#g" "$MX/verif/check" "$MX/verif/tools/try_patch.sh" "$MX/verif/py/build_ext.sh" "$MX/verif/sim/Cargo.toml"
+sed -i "s#/repo#$MX/repo#g" "$MX/verif/check" "$MX/verif/tools/sensitivity.sh" "$MX/verif/tools/try_patch.sh" "$MX/verif/py/build_ext.sh" "$MX/verif/sim/Cargo.toml"
 fi
 git -C "$MX/repo" checkout -q -- . 2>/dev/null
 cd "$MX/verif" && tools/try_patch.sh "$d/patch.diff" "$@"
